@@ -281,3 +281,14 @@ package net
 //@   call closeWith#1: ghost e.nclose := e.nclose + 1
 //@   loop 1:
 //@     invariant e.stream != nil && !e.handlersMutex.lockw && e.nread == e.ndisp && e.nclose == old(e.nclose)
+
+// The pipe transport hands a frame to the operating system in exactly one write of the whole buffer
+// (C10: the stream wrapper must not split what Message.Write assembled).
+//@ func (p *pipeStream) Write(d []byte) (n int, err error)
+//@   tags C10
+//@   requires p.w != nil
+//@   modifies p.w.len, p.w.writes, p.w.data
+//@   ensures[C10] p.w.writes == old(p.w.writes) + 1
+//@   ensures[C10] 0 <= n && n <= len(d) && p.w.len == old(p.w.len) + n
+//@   ensures[C10] forall j int {p.w.data[j]} :: old(p.w.len) <= j && j < p.w.len ==> p.w.data[j] == d[j - old(p.w.len)]
+//@   ensures[C10] p.w.accepting ==> n == len(d) && err == nil
